@@ -1,4 +1,4 @@
 SPECIFICATION Spec
-CONSTANTS CmaxI = 129  EminNeg = 3  Emax = 3  Family = "compose"  NMax = 20000  EWin = 8
+CONSTANTS CmaxI = 39  EminNeg = 2  Emax = 2  Family = "compose"  NMax = 5000  EWin = 6
 INVARIANTS ComposeExactOrError ComposeForms
 CHECK_DEADLOCK FALSE
